@@ -5,6 +5,7 @@ import (
 	"verif/core"
 	"verif/e2/check"
 	"verif/e2/families"
+	"verif/e2/spec"
 )
 
 func run(c *core.Ctx) {
@@ -14,7 +15,8 @@ func run(c *core.Ctx) {
 	c.Assume("nil and empty collections are equal; an unset attribute with a design default arrives as the default; zero of a defaulted primitive (non-pointer field) may arrive as zero or default")
 	c.Assume("values the transport cannot carry are outside the alphabet: empty path segment, control characters outside bodies, RFC 6265-forbidden cookie characters")
 	c.Assume("the wire is in-memory: http.Request.Write -> http.ReadRequest -> goa muxer on an httptest recorder (exact net/http serialisation and parsing, no sockets)")
-	fams := []check.Family{families.PayloadSingle(), families.PayloadPair(c.Thorough()), families.Features(), families.CrossService()}
+	fams := []check.Family{families.PayloadSingle(), families.PayloadPair(c.Thorough()), families.Features(), families.CrossService(), families.DeepPayloadShapes(c.Thorough())}
+	c.Rule("deep type structure (JSON bodies): " + spec.DeepShapesDoc + "; values: union = every candidate of every alternative; collections = empty, one, two, three elements and one element per distinct violated-rule set; objects nested up to 6 levels")
 	if families.OnlyStreams(c) {
 		fams = nil
 	}
